@@ -350,6 +350,9 @@ def run(chk):
     vocabulary_rule(chk, repo, "C12.S.vocabulary", [(FILE, "Circuit.startpoints"), (FILE, "Circuit.endpoints"), (FILE, "Circuit.inputs"), ("props.py", "levelize")])
     ns = closure_discipline_rule(chk, repo, "C12.S.reflexive-closure", [(FILE, "Circuit.startpoints"), (FILE, "Circuit.endpoints"), (FILE, "Circuit.reconvergent_fanout_nodes"), (FILE, "Circuit.fanin_depth"), (FILE, "Circuit.fanout_depth")],
                                  {(FILE, "Circuit.fanin_depth"): "`reachable` only restricts the all-visited test; the seeds are tracked in `visited`", (FILE, "Circuit.fanout_depth"): "same as fanin_depth"})
+    from ..history import history_rule
+
+    history_rule(chk, "C12.H")
     chk.floor("graphs enumerated", n_graphs, 200)
     chk.extra["graphs"] = n_graphs
     chk.extra["method_evaluations"] = counters["evals"]
